@@ -734,11 +734,16 @@ impl<'a> SkiplistIterator<'a> {
 		}
 		// Check upper bound first - if entry is at or past upper, move backward
 		if let Some(upper) = self.upper.as_deref() {
-			while self.is_valid() {
-				let key = self.key_bytes();
-				if (self.list.cmp)(upper, key) == Ordering::Greater {
-					// key < upper, so this entry is valid
-					break;
+			// The cached upper-bound node (the first entry at or past `upper`, remembered
+			// by an earlier forward step) is not "valid", but it must be walked past like
+			// every other entry that is not below `upper`.
+			while self.is_valid() || self.nd == self.upper_node {
+				if self.nd != self.upper_node {
+					let key = self.key_bytes();
+					if (self.list.cmp)(upper, key) == Ordering::Greater {
+						// key < upper, so this entry is valid
+						break;
+					}
 				}
 				// key >= upper, skip this entry
 				self.nd = self.list.get_prev(self.nd, 0);
